@@ -13,6 +13,12 @@ if len(rnd) and int(rnd) >= 3:
              "obvious ones: caches and their invalidation, in-place mutation of arguments or of shared objects, branches taken only for one segment type or "
              "one option value, tolerance constants, early exits, helper functions used by several public methods, "
              "operations whose effect shows only in a LATER call on the same or a derived object.")
+if len(rnd) and int(rnd) >= 5:
+    extra = ("\n\nThis is a late round: the main formulas, the caches and in-place edits have been used already. Look elsewhere: rarely used "
+             "keyword arguments and option values of the public functions involved (tolerances, flags, alternative modes), alternative but "
+             "legitimate input types (ints instead of floats, numpy scalars or arrays where the function accepts them, parameter values given as "
+             "0/1 ints), the configuration in which scipy is not installed (simulate with sys.modules['scipy'] = None before importing the "
+             "library), error handling for invalid input that the property mentions, and behaviour that differs between the segment types.")
 for pid in sys.argv[3:]:
     wt = '/tmp/wt%s_%s' % (rnd, pid)
     if not os.path.isdir(wt):
